@@ -3,10 +3,11 @@ import Paho.Driver.Session
 import Paho.Driver.Props
 import Paho.Driver.Codec
 import Paho.Driver.Decode
+import Paho.Driver.Reader
 open Paho.Driver
 
 def drivers : List (String × Drv) :=
-  [("trie", trieDrv), ("mid", midDrv), ("validate", validateDrv), ("session", sessionDrv), ("session-inv", sessionInvDrv), ("props", propsDrv), ("codec", codecDrv), ("decode", decodeDrv)]
+  [("trie", trieDrv), ("mid", midDrv), ("validate", validateDrv), ("session", sessionDrv), ("session-inv", sessionInvDrv), ("props", propsDrv), ("codec", codecDrv), ("decode", decodeDrv), ("reader", readerDrv)]
 
 def main (args : List String) : IO UInt32 := do
   match args with
